@@ -57,7 +57,7 @@ def strat():
             table = table[:draw(st.integers(3, len(table)))]
             lines = []
             for li in range(n_lines):
-                mode = draw(st.sampled_from(["match", "match", "mismatch", "short", "empty", "none", "share"]))
+                mode = draw(st.sampled_from(["match", "match", "mismatch", "short", "empty", "none", "share", "per_char"]))
                 text = "".join(draw(st.lists(st.sampled_from(table), min_size=1, max_size=7)))
                 if long_text:
                     reps = draw(st.integers(10, 16))
@@ -100,6 +100,15 @@ def build_layouts(case):
                     other = (spare[0] * (len(text) + 1)) if spare else text[::-1] + text[:1]
                     line = build_line("l%d" % li, geom, other, chars, spec["seed"], confuse=spec["confuse"], peak=spec["peak"])
                     line.transcription = text
+                elif mode == "per_char":
+                    # an engine that emits exactly one output row per character (transformer decoders)
+                    from vlib.pages import logits_for_path, sparsify
+                    line = build_line("l%d" % li, geom, text, chars, spec["seed"], confuse=spec["confuse"], peak=spec["peak"])
+                    rs_pc = np.random.RandomState(spec["seed"])
+                    cmap_pc = {c: i for i, c in enumerate(chars[:-1])}
+                    dense_pc = logits_for_path([cmap_pc[ch] for ch in text], len(chars), rs_pc, confuse=spec["confuse"], peak=spec["peak"])
+                    line.logits = sparsify(dense_pc)
+                    line.logit_coords = [0, len(text)]
                 elif mode == "short":
                     line = build_line("l%d" % li, geom, text[:1], chars, spec["seed"], pad_frames=(0, 0))
                     line.logits = line.logits[:max(1, min(line.logits.shape[0], len(text) - 1))] if len(text) > 1 else line.logits
@@ -190,7 +199,7 @@ def body(ctx, case):
         ctx.check(line.transcription == ex["t"], "merged_transcription_not_of_most_confident_engine", info)
         # independent of the library's own confidence: an engine whose logits were built around its transcription with
         # strong peaks and no competitor has every character confidence close to 1, so the merged line must be that confident
-        clean = [e for e, eng in enumerate(case["engines"]) if eng["lines"][li]["mode"] == "match" and eng["lines"][li]["confuse"] == 0.0
+        clean = [e for e, eng in enumerate(case["engines"]) if eng["lines"][li]["mode"] in ("match", "per_char") and eng["lines"][li]["confuse"] == 0.0
                  and tuple(eng["lines"][li]["peak"]) == (6.0, 14.0)]
         if clean:
             ctx.check(line.transcription_confidence is not None and line.transcription_confidence >= 0.99, "clean_engine_result_not_recognised_as_confident",
